@@ -267,3 +267,9 @@ try:
     ITEMS += _C11
 except ImportError:
     pass
+
+try:
+    from translate_c13 import ITEMS as _C13
+    ITEMS += _C13
+except ImportError:
+    pass
